@@ -15,8 +15,9 @@ class CondDesign(Elaboratable):
         self.nm = 2
         self.rdy = [Signal(name=f"r{i}") for i in range(self.nm)]
         self.re = Signal(name="re")
-        self.ncallers = {"t": 0, "m1": 1, "m2": 2, "m1c": 1, "m2c": 2}[cfg["encl"]]
-        self.cc = [Signal(name=f"cc{i}") for i in range(self.ncallers)] if cfg["encl"].endswith("c") else []
+        # "m1d": the caller calls a middle method P under m.If, P calls the enclosing method unconditionally
+        self.ncallers = {"t": 0, "m1": 1, "m2": 2, "m1c": 1, "m2c": 2, "m1d": 1}[cfg["encl"]]
+        self.cc = [Signal(name=f"cc{i}") for i in range(self.ncallers)] if cfg["encl"][-1] in "cd" else []
         self.rc = [Signal(name=f"rc{i}") for i in range(self.ncallers)]
         self.conds = []
         self.args = []
@@ -82,6 +83,15 @@ class CondDesign(Elaboratable):
             def _():
                 emit_block(cfg["block"])
 
+            target = self.encl
+            if cfg["encl"] == "m1d":
+                self.mid = Method(name="P")
+
+                @def_method(m, self.mid)
+                def _():
+                    self.encl(m)
+                target = self.mid
+
             self.callers = []
             for i in range(self.ncallers):
                 t = Transaction(name=f"C{i}")
@@ -89,9 +99,9 @@ class CondDesign(Elaboratable):
                 with t.body(m, ready=self.rc[i]):
                     if self.cc:
                         with m.If(self.cc[i]):     # conditionally called enclosing method
-                            self.encl(m)
+                            target(m)
                     else:
-                        self.encl(m)
+                        target(m)
         return m
 
 
@@ -265,10 +275,14 @@ def jobs(tier):
                 js.append(E1("checks.c12", "CondH", {"encl": "t", "block": blk}, replay_cap=2))
                 if not blk["nb"] or not blk["prio"]:
                     js.append(E1("checks.c12", "CondH", {"encl": "m1c", "block": blk}, replay_cap=2))
+                if not blk["nb"] and not blk["prio"]:
+                    js.append(E1("checks.c12", "CondH", {"encl": "m1d", "block": blk}, replay_cap=2))
+        for blk in blocks(2, [0, 1]):
+            js.append(E1("checks.c12", "CondH", {"encl": "m1d", "block": blk}, replay_cap=2))
         for blk in blocks(2, [1, 2]):
             js.append(E1("checks.c12", "CondH", {"encl": "t", "block": blk, "val": True}, replay_cap=2))
     else:
-        for encl in ("t", "m1", "m2", "m1c", "m2c"):
+        for encl in ("t", "m1", "m2", "m1c", "m2c", "m1d"):
             for blk in blocks(3, [0, 1, 2, 3], nested=True):
                 js.append(E1("checks.c12", "CondH", {"encl": encl, "block": blk}, replay_cap=2))
             for blk in blocks(2, [1, 2, 3]):
@@ -286,7 +300,16 @@ def run(rep, tier):
     rep.assumptions = ["pysim semantics", "branch callees are not shared with transactions outside the condition block "
                        "('admissible' = condition, callees ready, arguments valid)"]
     rs = run_jobs(jobs(tier), chunksize=8)
-    rep.add_e1(rs)
+    # a design whose netlist has a combinational cycle is never simulated; cycles are C10's subject (C10 builds the netlist
+    # of every harness of this check), here such a design is only counted
+    kept = []
+    for r in rs:
+        if r.get("comb_loop"):
+            rep.bump("designs_with_comb_loop_left_to_C10")
+            rep.exhaustive = False
+        else:
+            kept.append(r)
+    rep.add_e1(kept)
     rep.per_config = rep.per_config[:40]
     return {"states": 300, "transitions": 20000, "nt_overlapping_conditions": 2000, "nt_nonblocking_fallthrough": 500,
             "nt_enclosing_blocked": 1000, "nt_enclosing_runs": 2000}
